@@ -30,7 +30,7 @@ func c07Decoys(k int) []*fo.RawDecl {
 		mk("zzGen#", "let zzGen# a b =\n  (b, a)"),
 		mk("zzFn#", "let zzFn# (r:ZzRec#) (xs:[]ZzRec#) =\n  let ys = xs |> slice.Map _.ZzA#\n  slice.Length ys + r.ZzA#"),
 		mk("zzpkg# ZzT# ZzMake# ZzUse#", "package_info zzpkg# =\n  type ZzT#\n  let ZzMake#: int->ZzT#\n  let ZzUse#<T>: ZzT#->T->T"),
-		mk("ZzTree# ZzKids# ZzNode# ZzLeaf# ZzBranch#", "type ZzTree# = {ZzKids#: []ZzNode#}\nand ZzNode# =\n| ZzLeaf# of int\n| ZzBranch# of ZzTree#"),
+		mk("ZzTree# ZzKids# ZzOne# ZzNode# ZzLeaf# ZzBranch#", "type ZzTree# = {ZzKids#: []ZzNode#; ZzOne#: ZzNode#}\nand ZzNode# =\n| ZzLeaf# of int\n| ZzBranch# of ZzTree#"),
 		mk("zzChain#", "let zzChain# a b c d =\n  let t = (a, b)\n  let u = (c, d)\n  (frt.Fst t, frt.Snd u)"),
 		mk("zzVar#", "let zzVar# = 40 + 2"),
 		mk("ZzBox# ZzItem# ZzCnt#", "type ZzBox#<T> = {ZzItem#: T; ZzCnt#: int}"),
@@ -211,6 +211,25 @@ func c07Histories(rng *core.Rand, p *fo.Program, n int, decoyBase int) []*c07His
 		h.kind = strings.Join(kinds, "+")
 		out = append(out, h)
 	}
+	// one bulk history: 70 complete decoy sets (140 forward references in type groups, 70 generic
+	// functions, 70 package_info blocks, ...) in front of the pool, in one file and cut in two:
+	// whatever fc allots per definition must not be used up by earlier, unrelated definitions
+	for _, cut := range []bool{false, true} {
+		var bulk []fo.Decl
+		for q := 0; q < 70; q++ {
+			for _, d := range c07Decoys(1000 + q) {
+				bulk = append(bulk, d)
+			}
+		}
+		h := &c07History{kind: "bulk-decoys"}
+		if cut {
+			h.kind = "bulk-decoys+cut-2-files"
+			h.files = [][]fo.Decl{bulk, append([]fo.Decl{}, p.Decls...)}
+		} else {
+			h.files = [][]fo.Decl{append(bulk, p.Decls...)}
+		}
+		out = append(out, h)
+	}
 	return out
 }
 
@@ -309,7 +328,7 @@ func runC07(r *core.Run, tier string) {
 	if tier == "thorough" {
 		nPools, nHist = 400, 30
 	}
-	r.Rule("a case is one history of a pool of 20..40 top-level definitions (a generated program): a random dependency-respecting permutation, deletion of definitions nothing kept refers to, insertion of unrelated decoy definitions (records, unions, generic records and their instantiations, generic functions, package_info blocks, type ... and ... groups, _.F lambdas, matches), and cutting the sequence into 1..4 files of one fc invocation (plus a .foi argument); every pool also holds probe definitions (two records, plain and generic, with one field-name set, an uncompared early user of the field set that may be placed between them, and a compared user after both); for every Go declaration present both in the history and in the pool's base order the text (with _vN renumbered by first occurrence, extracted with go/parser) must be identical; the set of files written must be exactly gen_X.go per X.fo and nothing for the .foi; the hook-H2 trace must show the same number of type variables allocated by the same definition in every history; non-trivial = history differs from the base order; distinct by rendered text hash")
+	r.Rule("a case is one history of a pool of 20..40 top-level definitions (a generated program): a random dependency-respecting permutation, deletion of definitions nothing kept refers to, insertion of unrelated decoy definitions (records, unions, generic records and their instantiations, generic functions, package_info blocks, type ... and ... groups, _.F lambdas, matches), and cutting the sequence into 1..4 files of one fc invocation (plus a .foi argument); one bulk history per pool puts 70 complete decoy sets in front of it (in one file, and as a first file of two); every pool also holds probe definitions (two records, plain and generic, with one field-name set, an uncompared early user of the field set that may be placed between them, and a compared user after both); for every Go declaration present both in the history and in the pool's base order the text (with _vN renumbered by first occurrence, extracted with go/parser) must be identical; the set of files written must be exactly gen_X.go per X.fo and nothing for the .foi; the hook-H2 trace must show the same number of type variables allocated by the same definition in every history; non-trivial = history differs from the base order; distinct by rendered text hash")
 	r.Assume("the reference relation is over-approximated textually: a definition depends on every earlier definition one of whose identifiers occurs in it", "decoys use identifiers no pool definition contains")
 	// pools: the C01 profile with more top-level variables (their right-hand sides are parsed
 	// in the single long-lived root scope, where a leak reaches every later definition)
